@@ -40,6 +40,35 @@ def const_list(fi, name):
     return ev(d)
 
 
+def sheet_lists_from_guards(fi, d):
+    """(required sheets, all sheets) read off the guards of a validation function whose sheet dictionary is parameter d"""
+    def names_of(e):
+        if isinstance(e, (ast.List, ast.Tuple, ast.Set)) and e.elts and all(isinstance(x, ast.Constant) and isinstance(x.value, str) for x in e.elts):
+            return [x.value for x in e.elts]
+        if isinstance(e, ast.Name):
+            return const_list(fi, e.id)
+        return None
+    req = alls = None
+    for n in ast.walk(fi.node):
+        if isinstance(n, ast.If) and any(isinstance(x, ast.Raise) for x in n.body):
+            t = n.test
+            if isinstance(t, ast.UnaryOp) and isinstance(t.op, ast.Not) and isinstance(t.operand, ast.Call) and isinstance(t.operand.func, ast.Name) \
+                    and t.operand.func.id == "all" and len(t.operand.args) == 1 and req is None:
+                a = t.operand.args[0]
+                if isinstance(a, (ast.GeneratorExp, ast.ListComp)) and len(a.generators) == 1 and isinstance(a.elt, ast.Compare) and len(a.elt.ops) == 1 \
+                        and isinstance(a.elt.ops[0], ast.In) and isinstance(a.elt.comparators[0], ast.Name) and a.elt.comparators[0].id == d:
+                    req = names_of(a.generators[0].iter)
+                elif isinstance(a, (ast.Tuple, ast.List)) and a.elts and all(
+                        isinstance(x, ast.Compare) and len(x.ops) == 1 and isinstance(x.ops[0], ast.In) and isinstance(x.left, ast.Constant)
+                        and isinstance(x.comparators[0], ast.Name) and x.comparators[0].id == d for x in a.elts):
+                    req = [x.left.value for x in a.elts]
+            if isinstance(t, ast.Compare) and len(t.ops) == 1 and isinstance(t.ops[0], ast.NotIn) and isinstance(t.left, ast.Name) and alls is None:
+                cand = names_of(t.comparators[0])
+                if cand and len(cand) >= 3:
+                    alls = cand
+    return req, alls
+
+
 def dict_param(fi):
     return astq.params_of(fi.node)[0][0]
 
@@ -360,6 +389,12 @@ def check(prog, run):
         req = const_list(fi, "required_sheets")
         alls = const_list(fi, "all_sheets")
         if req is None or alls is None:
+            # not kept in locals of those names: read them off the two guards that use them - `if not all(s in d for s in REQUIRED): raise`
+            # and `for s in d: if s not in ALL: raise` (after normalisation the lists are written out where they are used)
+            req2, alls2 = sheet_lists_from_guards(fi, d)
+            req = req if req is not None else req2
+            alls = alls if alls is not None else alls2
+        if req is None or alls is None:
             raise AnalysisError(f"anchor lost: required_sheets / all_sheets lists in {q}")
         optional = [k for k in alls if k not in req]
         out = []
@@ -480,11 +515,73 @@ def reindex(prog, run):
                         ok = True
                     if isinstance(v, ast.Call) and isinstance(v.func, ast.Attribute) and v.func.attr == "reindex" and "flatten_sns_names" in astq.src(v, 400):
                         ok = True
+    if not ok:
+        # the re-ordering done only when needed: `if <columns differ from the names>: X = X.reindex(columns=names)`.  Skipping it is right
+        # exactly when the guard being false means the columns ARE the names, in that order; a guard that only asks whether a name is
+        # missing (sets, lengths) is also false for a complete table in another order
+        ok, why2 = None, None
+        for ifn in ast.walk(fi2.node):
+            if not (isinstance(ifn, ast.If) and not ifn.orelse):
+                continue
+            for st in ifn.body:
+                if not (isinstance(st, ast.Assign) and len(st.targets) == 1 and isinstance(st.targets[0], ast.Name)):
+                    continue
+                v = st.value
+                tname = st.targets[0].id
+                names_e = None
+                if isinstance(v, ast.Call) and isinstance(v.func, ast.Attribute) and v.func.attr == "reindex" and isinstance(v.func.value, ast.Name) and v.func.value.id == tname:
+                    names_e = astq.kwarg(v, "columns")
+                elif isinstance(v, ast.Subscript) and isinstance(v.value, ast.Name) and v.value.id == tname and isinstance(v.slice, (ast.Name, ast.Call)):
+                    names_e = v.slice
+                if names_e is None or "flatten_sns_names" not in astq.src(astq.expr_at(fi2, ifn, names_e), 400):
+                    continue
+                g = astq.expr_at(fi2, ifn, ifn.test)
+                gt = astq.src(g, 2000)
+                nt = astq.src(astq.expr_at(fi2, ifn, names_e), 2000)
+                ordered = False
+                for c in ast.walk(g):
+                    if isinstance(c, ast.Compare) and len(c.ops) == 1 and isinstance(c.ops[0], ast.NotEq):
+                        a_, b_ = astq.src(c.left, 2000), astq.src(c.comparators[0], 2000)
+                        if (".columns" in a_ and b_ == nt) or (".columns" in b_ and a_ == nt):
+                            ordered = True
+                blind = any(isinstance(c, ast.Call) and astq.src(c.func).split(".")[-1] in astq._ORDER_BLIND for c in ast.walk(g)) or \
+                    any(isinstance(c, (ast.Set, ast.SetComp)) for c in ast.walk(g)) or \
+                    any(isinstance(c, ast.Compare) and any(isinstance(o, (ast.In, ast.NotIn)) for o in c.ops) for c in ast.walk(g))
+                if ordered:
+                    ok, why2 = True, f"`{astq.src(st, 70)}` unless the columns already are the names in that order (`{astq.src(ifn.test, 50)}`)"
+                elif blind and not any(isinstance(c, ast.Compare) and isinstance(c.ops[0], (ast.NotEq, ast.Eq)) and ".columns" in astq.src(c, 2000) and not
+                                       any(isinstance(x, ast.Call) and astq.src(x.func).split(".")[-1] in astq._ORDER_BLIND for x in ast.walk(c)) for c in ast.walk(g)):
+                    ok, why2 = False, (f"`{astq.src(st, 70)}` is skipped when `{astq.src(ifn.test, 60)}` is false - a test on membership / counts only: a constraint table that "
+                                       f"names every sensor in another order keeps its own column order")
+                else:
+                    ok, why2 = None, f"`{astq.src(st, 70)}` under `{astq.src(ifn.test, 60)}`: guard not read"
+        if why2:
+            why = why2
     run.ob("R-reindex", fi2.qual, "constraint columns re-ordered to the sensor names", ok, f"`{why}`", witness=why[:80], file=f2)
 
 
 def _first_sheet(e, dname):
-    """the sheet name of the first (outermost) `d['<sheet>']` read in expression e"""
+    """the sheet an expression is derived from: the `d['<sheet>']` at the bottom of its spine (X.reindex(..) -> X, X[..] -> X, X.values -> X,
+    f(X, ..) -> X), else the first `d['<sheet>']` read anywhere in it"""
+    cur = e
+    for _ in range(40):
+        if isinstance(cur, ast.Subscript) and isinstance(cur.value, ast.Name) and cur.value.id == dname and isinstance(cur.slice, ast.Constant) and isinstance(cur.slice.value, str):
+            return cur.slice.value
+        if isinstance(cur, ast.Call) and isinstance(cur.func, ast.Attribute) and cur.func.attr == "get" and isinstance(cur.func.value, ast.Name) and cur.func.value.id == dname \
+                and cur.args and isinstance(cur.args[0], ast.Constant) and isinstance(cur.args[0].value, str):
+            return cur.args[0].value
+        if isinstance(cur, ast.Subscript):
+            cur = cur.value
+        elif isinstance(cur, ast.Attribute):
+            cur = cur.value
+        elif isinstance(cur, ast.Call) and isinstance(cur.func, ast.Attribute):
+            cur = cur.func.value
+        elif isinstance(cur, ast.Call) and cur.args:
+            cur = cur.args[0]
+        elif isinstance(cur, ast.IfExp):
+            cur = cur.body
+        else:
+            break
     for n in ast.walk(e):
         if isinstance(n, ast.Subscript) and isinstance(n.value, ast.Name) and n.value.id == dname and isinstance(n.slice, ast.Constant) and isinstance(n.slice.value, str):
             return n.slice.value
@@ -502,14 +599,15 @@ def validated(prog, run):
         d = dict_param(cf)
         rets = [n for n in ast.walk(cf.node) if isinstance(n, ast.Return) and isinstance(n.value, ast.Tuple)]
         if rets:
-            sheet_of_elem[cf.node.name] = [_first_sheet(astq.expr_at(cf, rets[-1], e), d) for e in rets[-1].value.elts]
+            # (an element written `d['<sheet>']` in the return statement IS that sheet, whatever was stored there before)
+            sheet_of_elem[cf.node.name] = [_first_sheet(e, d) or _first_sheet(astq.expr_at(cf, rets[-1], e), d) for e in rets[-1].value.elts]
     by_keyword = {}      # (geometry class, keyword) -> sheet, learnt from the def_geoN route and required of the by-file route
     # sheet -> public argument, from the dict literal that def_geoN assembles for the validation function whose sheets it names
     sheets_of_fn = {}
     for q in GEO:
         cf = prog.func(q)
         CUR["lists"] = {}
-        sheets_of_fn[cf.node.name] = set(const_list(cf, "all_sheets") or [])
+        sheets_of_fn[cf.node.name] = set(const_list(cf, "all_sheets") or sheet_lists_from_guards(cf, dict_param(cf))[1] or [])
     arg_of_sheet_fn = {}
     for cq in [q for q in prog.classes if q.endswith("geometry.mixin.GeometryMixin")]:
         for m in prog.classes[cq].methods.values():
@@ -579,6 +677,14 @@ def validated(prog, run):
                         ok = (arg == k.arg or arg.startswith(k.arg) or k.arg.startswith(arg)) if arg is not None else None
                         by_keyword.setdefault((cname, k.arg), sheet)
                         detail = f"`{k.arg}` <- element {pos} of {src_fn.node.name}(...) = validated sheet '{sheet}', which holds the argument `{arg}`"
+                        if arg is None and len(arg_of_sheet) >= 3:
+                            # the sheet is filled, but with nothing the caller passed - while an argument of the method reaches no sheet at all
+                            unused = sorted(p_ for p_ in params - set(arg_of_sheet.values()) - {"self"}
+                                            if (p_ == k.arg or p_.startswith(k.arg) or k.arg.startswith(p_)))
+                            if unused:
+                                ok = False
+                                detail = (f"`{k.arg}` <- element {pos} of {src_fn.node.name}(...) = validated sheet '{sheet}', but that sheet is filled with an empty table whatever the caller "
+                                          f"passes: the argument `{unused[0]}` of {m.node.name} is never handed to the validation")
                     else:
                         want = by_keyword.get((cname, k.arg))
                         ok = (want == sheet) if want is not None else None
@@ -619,6 +725,9 @@ def attr_rule(prog, run):
                 for k, v in zip(n.keys, n.values):
                     if isinstance(k, ast.Constant):
                         names = [x.id for x in ast.walk(v) if isinstance(x, ast.Name)]
+                        if not any(a.arg in names for a in m.node.args.args):
+                            # the value is a local that stands for `<argument> if <argument> is not None else <empty table>`
+                            names = _param_names(m, n, v, {a.arg for a in m.node.args.args})
                         for a in m.node.args.args:
                             if a.arg in names:
                                 key2param[k.value] = a
